@@ -36,7 +36,7 @@ COMPONENTS = {
              "csv", "io stack", "zipfile", "ElementTree", "xlrd"],
     "stub": ["SimFS/SimRaw", "peers", "stepping client"],
 }
-PROBES_REQUIRED = ["container-fault-right-behind-limit", "bad-row-on-header", "bad-row-right-after-header", "bad-row-on-limit", "bad-row-right-after-limit",
+PROBES_REQUIRED = ["second-pass-on-the-same-reader", "cid-file-rewritten-with-other-header", "container-fault-right-behind-limit", "bad-row-on-header", "bad-row-right-after-header", "bad-row-on-limit", "bad-row-right-after-limit",
                    "limit-zero", "limit-inside-header", "api:cli", "api:validate", "api:validate_rows", "api:rows-yield",
                    "garbage-header"]
 
@@ -76,8 +76,14 @@ def generate(seed, tier):
         kind = "open-quote" if fmt == "delimited" else "wrong-delimiter"
         row = header + limit + 1 if fault_rng.random() < 0.7 else fault_rng.randint(1, header + limit + 1)
         fault = {"kind": kind, "row": row, "cut": 1}
+    rows_api = swarm.choice(["Reader", "rows"])
     return {"io": simfs.IoConfig.draw(swarm), "cid": spec, "table": table, "limit": limit, "api": api, "fault": fault,
-            "rows_api": swarm.choice(["Reader", "rows"]), "source": "path"}
+            "rows_api": rows_api, "source": "path",
+            # the same Reader object has been iterated before (k rows, or completely): header and limit count from the
+            # start of *this* pass
+            "prepass": swarm.choice([None, None, 0, 1, 2, -1]) if api.startswith("rows-") and rows_api == "Reader" and not fault else None,
+            # the CID is handed over as the path of a file that a moment ago declared another number of header rows
+            "cid_as_path": swarm.choice([None, None, None, "plain", "rewritten"]) if api != "cli" else None}
 
 
 # ---- bounded sweep ---------------------------------------------------------------------------
@@ -163,12 +169,35 @@ def execute(scenario):
             outcome = {"exit": value if status == "ok" else lib.error_summary(value)}
         else:
             cid = lib.load_cid(tabular.cid_rows(spec))
+            if scenario.get("cid_as_path"):
+                if scenario["cid_as_path"] == "rewritten":
+                    other_spec = dict(spec, header=0 if header else 2)
+                    fs.store("cid.csv", lib.render_delimited(tabular.cid_rows(other_spec), ",", '"', "\n").encode("utf-8"))
+                    earlier = lib.ReadRun("cid.csv", path, "Reader", "continue")
+                    while earlier.step():
+                        pass
+                    earlier.close()
+                    result.probe("cid-file-rewritten-with-other-header")
+                fs.store("cid.csv", lib.render_delimited(tabular.cid_rows(spec), ",", '"', "\n").encode("utf-8"))
+                cid = "cid.csv"
             if api.startswith("rows-"):
                 mode = api.split("-")[1]
                 run = lib.ReadRun(cid, path, scenario.get("rows_api", "Reader"), mode, until=limit)
             else:
                 mode = "raise"
                 run = lib.ReadRun(cid, path, api, "raise", until=limit)
+            prepass = scenario.get("prepass")
+            if prepass is not None and run.reader is not None and run.api == "Reader":
+                def first_pass():
+                    taken = 0
+                    for _ in run.reader.rows():
+                        taken += 1
+                        if prepass >= 0 and taken >= prepass:
+                            break
+
+                lib.call(first_pass)
+                run.generator = run.reader.rows()
+                result.probe("second-pass-on-the-same-reader")
             while run.step():
                 pass
             run.close()
@@ -293,6 +322,10 @@ def candidates(scenario):
             yield lib.with_value(scenario, ["cid", key], value)
     if scenario.get("rows_api") != "Reader":
         yield lib.with_value(scenario, ["rows_api"], "Reader")
+    if scenario.get("prepass") is not None:
+        yield lib.with_value(scenario, ["prepass"], None)
+    if scenario.get("cid_as_path"):
+        yield lib.with_value(scenario, ["cid_as_path"], None)
     for row_index, row in enumerate(scenario["table"]):
         good = _good_row(fields)
         if row != good:
